@@ -1,6 +1,7 @@
 package main
 
 import (
+	"sync/atomic"
 	"fmt"
 	"math/rand"
 	"time"
@@ -229,4 +230,103 @@ func stalledRefilter(c *Ctx, i int) {
 		c.Violation("", p+" ["+what+"]", replay)
 	}
 	c.DistinctCase(what)
+}
+
+// bigBatches: batches of more than EventBufsiz events that the LIBRARY emits
+// in one go — the difference of a relist, the delta of a Refilter — towards a
+// consumer that reads as fast as it can.  The consumer's own backlog stays
+// small; what is lost is lost in the library's internal hops (the controller's
+// root subscription, the filtered node's own output), which push without
+// waiting into buffers of EventBufsiz.  Known findings (see known-findings.txt
+// and DESIGN 0.3): reported as such, with the numbers of this run.
+func bigBatches(c *Ctx, pid string) {
+	n := 1500
+	what := fmt.Sprintf("a relist that finds %d new objects (the watch never connects), towards a subscriber that reads as fast as it can; then a Refilter that admits them all", n)
+	c.Now(what)
+	var relistGot, relistCache, refilterGot, refilterCache, maxBacklog int
+	var problems []string
+	dl := sched.Bubble(c.T, func() {
+		srv := fakeapi.New()
+		srv.WatchBehave = func(n int, rv string) string { return fakeapi.ConnectError(n) }
+		ct := newCtlWith(srv, c.Seed, 0, 2*time.Second, nil)
+		defer func() {
+			ct.c.Close()
+			sched.Settle()
+		}()
+		sched.Settle()
+		if !isClosed(ct.c.Ready()) {
+			problems = append(problems, "not ready")
+			return
+		}
+		sub, err := ct.c.Subscribe()
+		if err != nil {
+			problems = append(problems, "Subscribe failed")
+			return
+		}
+		var got atomic.Int64
+		go func() {
+			for range sub.Events() {
+				if b := len(sub.Events()); b > maxBacklog {
+					maxBacklog = b
+				}
+				got.Add(1)
+			}
+		}()
+		// a filtered subscription that holds nothing yet (accept-none), read as fast as possible too
+		fs, err := ct.c.SubscribeWithFilter((&Filt{Tag: FAll}).Go())
+		if err != nil {
+			problems = append(problems, "SubscribeWithFilter failed")
+			return
+		}
+		var fgot atomic.Int64
+		go func() {
+			for range fs.Events() {
+				fgot.Add(1)
+			}
+		}()
+		sched.Settle()
+		for k := 0; k < n; k++ {
+			srv.Set(1+k%3, 1+k/3, labSets[1], 1)
+		}
+		time.Sleep(5 * time.Second) // two relists
+		sched.Settle()
+		l, _ := ct.c.Cache().List()
+		relistCache, relistGot = len(l), int(got.Load())
+		// the Refilter: everything becomes a member at once
+		if err := fs.Refilter((&Filt{Tag: FNull}).Go()); err != nil {
+			problems = append(problems, "Refilter failed: "+err.Error())
+			return
+		}
+		time.Sleep(time.Second)
+		sched.Settle()
+		fl, _ := fs.Cache().List()
+		refilterCache, refilterGot = len(fl), int(fgot.Load())
+	})
+	c.Rep.Evaluations++
+	replay := map[string]interface{}{"scenario": what, "relist_events_received": relistGot, "objects_in_cache": relistCache, "max_consumer_backlog": maxBacklog,
+		"refilter_creates_received": refilterGot, "objects_in_filtered_cache": refilterCache, "event_buffer": kcache.EventBufsiz}
+	if dl != "" {
+		replay["deadlock"] = dl
+		c.Violation("", "hang (bubble deadlock): "+what, replay)
+		return
+	}
+	for _, p := range problems {
+		c.Violation("", p+" ["+what+"]", replay)
+	}
+	if len(problems) > 0 {
+		return
+	}
+	if relistCache != n {
+		c.Violation("", fmt.Sprintf("after the relist the cache holds %d objects, the list had %d", relistCache, n), replay)
+	}
+	if pid == "C05" && relistGot < relistCache {
+		c.KnownFinding("D13-relist-difference-beyond-event-buffer", fmt.Sprintf("a relist that finds more than EventBufsiz (%d) differences publishes only part of them, to every subscriber however fast it reads: %d objects entered the cache, a subscriber whose own backlog never exceeded %d received %d events (lost between the controller and its publisher: the root subscription pushes without waiting)", kcache.EventBufsiz, relistCache, maxBacklog, relistGot), replay)
+	}
+	if pid == "C07" && refilterCache == n && refilterGot < refilterCache {
+		c.KnownFinding("D13-refilter-delta-beyond-event-buffer", fmt.Sprintf("a Refilter whose delta exceeds EventBufsiz (%d) delivers only part of it, also to a consumer that reads as fast as it can: %d objects newly accepted (and cached), %d Create events received", kcache.EventBufsiz, refilterCache, refilterGot), replay)
+	}
+	if pid == "C07" && refilterCache != n {
+		c.Violation("", fmt.Sprintf("after Refilter(accept-all) the filtered subscription's cache holds %d objects, its parent %d", refilterCache, n), replay)
+	}
+	c.DistinctCase("big-batches")
 }
